@@ -733,7 +733,7 @@ func isDeadlineChan(v ssa.Value, depth int) bool {
 	if mc, ok := cl.Call.Value.(*ssa.MakeClosure); ok {
 		h = mc.Fn.(*ssa.Function)
 	} else {
-		h = cl.Call.StaticCallee()
+		h = calleeOf(&cl.Call)
 	}
 	if h == nil {
 		return false
